@@ -6,6 +6,7 @@
     Only pinned statements, each closed by [exact]. *)
 From Coq Require Import List ZArith Bool Permutation Sorted.
 From VibeSQL Require Import Sem.Syntax Sem.Rel Sem.Laws.
+From VibeSQL Require Import Sem.Eval Sem.FuelLaws.
 Import ListNotations.
 
 Theorem C01_row_equality_is_identity : forall a b : row, row_eqb a b = true <-> a = b.
@@ -57,3 +58,15 @@ Theorem C01_limit_offset_slice : forall (n m : nat) (l : list row),
   limit_offset (Some n) (Some m) l = firstn n (skipn m l).
 Proof. exact limit_offset_slice. Qed.
 Print Assumptions C01_limit_offset_slice.
+
+(** the reference evaluator's answer does not depend on the fuel bound: an evaluation that finishes with
+    anything but "out of fuel" (error 3) gives the same answer under every larger fuel *)
+Theorem C01_eval_query_fuel_independent : forall (n k : nat) (d : db) (env : list row) (q : query) (r : res (list row)),
+  eval_query n d env q = r -> r <> Err 3 -> eval_query (n + k) d env q = r.
+Proof. exact eval_query_fuel_independent. Qed.
+Print Assumptions C01_eval_query_fuel_independent.
+
+Theorem C01_run_query_fuel_independent : forall (d : db) (q : query) (r : res (list row)) (k : nat),
+  run_query d q = r -> r <> Err 3 -> eval_query (64 + k) d [] q = r.
+Proof. exact run_query_is_fuel_independent. Qed.
+Print Assumptions C01_run_query_fuel_independent.
